@@ -98,3 +98,125 @@ def spread(hm, x):
             total += (v - m) ** 2
             resid[s] = resid.get(s, Fraction(0)) + (v - m)
     return total, resid
+
+
+# ------------------------------------------------------------------ large / ill-conditioned mappings (oracle only)
+
+BLOCKS = (1000, 1024, 4096, 8192, 10000)
+
+
+def n_equations(hm):
+    """Rows of the least-squares problem: crossings at levels crossed by >= 2 intervals."""
+    return sum(len(seq) for seq in hm.values() if len(seq) >= 2)
+
+
+def gen_large_mapping(rng, min_eq=5000, max_eq=9000, n_levels=None, noise=True):
+    """A large NOISY head mapping: 60-160 intervals, each crossing a contiguous run of 30-90 of 100-170 levels, the
+    overlap graph connected, more than `min_eq` equations (level, interval) and the count NOT a multiple of any of
+    BLOCKS (software that accumulates the normal equations in chunks must get the ragged last chunk right).
+    Insertion order as build_head_mapping produces it: interval by interval, each one's levels downwards."""
+    n_levels = n_levels or rng.randrange(100, 171)
+    target = rng.randrange(min_eq, max_eq)
+    ranges = []
+    total = 0
+    hi_prev = None
+    while total < target:
+        ln = rng.randrange(30, 91)
+        lo = rng.randrange(0, n_levels - ln + 1)
+        if hi_prev is not None and not any(a <= lo + ln - 1 and lo <= b for a, b in ranges):
+            continue                                   # (must meet some earlier range: connected)
+        ranges.append((lo, lo + ln - 1))
+        hi_prev = lo + ln - 1
+        total += ln
+    slope = dyadic(rng, 0.25, 8)
+    T = lambda h: -slope * h + (h * h) / 64.0      # noqa: E731
+    cs = [dyadic(rng, -5000, 5000) for _ in ranges]
+    ids = list(range(len(ranges)))
+    rng.shuffle(ids)                                   # which interval is the reference (largest id) is arbitrary
+    hm = {}
+    for k in sorted(range(len(ranges)), key=lambda k: ids[k]):
+        lo, hi = ranges[k]
+        for h in range(hi, lo - 1, -1):
+            t = T(h) - cs[k] + (dyadic(rng, -2, 2) if noise else 0.0)
+            hm.setdefault(h, []).append((ids[k], t))
+    # ragged count: drop the lowest level of one interval until no block size divides the number of equations
+    guard = 0
+    while any(n_equations(hm) % b == 0 for b in BLOCKS) and guard < 20:
+        guard += 1
+        h = min(h for h, seq in hm.items() if len(seq) >= 3)
+        hm[h] = hm[h][:-1]
+    truth = dict(shape='large(%d+ equations, noisy)' % (n_equations(hm) // 1000 * 1000), n_intervals=len(ranges),
+                 equations=n_equations(hm), planted=None if noise else {ids[k]: cs[k] for k in range(len(ranges))})
+    return hm, truth
+
+
+def gen_chain_long(rng, n_chain=None, n_long=None, long_levels=None, noise=False):
+    """An ILL-CONDITIONED but connected overlap graph: a staircase of `n_chain` short intervals, each crossing two
+    levels and sharing exactly ONE of them with the next, hanging from `n_long` long intervals that share
+    `long_levels` levels with one another (and one level with the first step of the staircase).  The smooth modes of
+    the staircase have singular values ~ (pi/2n)/sqrt(2) against sqrt(long_levels) for the long intervals.
+    Without noise the planted constants are the exact answer (truth['planted']: id -> constant; offsets = constant
+    + common shift).  Ids are assigned at random (the reference = largest id may sit anywhere)."""
+    n_chain = n_chain or rng.randrange(600, 901)
+    n_long = n_long or rng.randrange(2, 5)
+    long_levels = long_levels or rng.randrange(1200, 2001)
+    ranges = [(-(long_levels - 1), 0)] * n_long + [(i, i + 1) for i in range(n_chain)]
+    slope = dyadic(rng, 0.25, 8)
+    T = lambda h: -slope * h      # noqa: E731
+    cs = [dyadic(rng, -5000, 5000) for _ in ranges]
+    ids = list(range(len(ranges)))
+    rng.shuffle(ids)
+    hm = {}
+    for k in sorted(range(len(ranges)), key=lambda k: ids[k]):
+        lo, hi = ranges[k]
+        for h in range(hi, lo - 1, -1):
+            t = T(h) - cs[k] + (dyadic(rng, -2, 2) if noise else 0.0)
+            hm.setdefault(h, []).append((ids[k], t))
+    truth = dict(shape='staircase of single-level links + long intervals%s' % (', noisy' if noise else ''),
+                 n_chain=n_chain, n_long=n_long, long_levels=long_levels, equations=n_equations(hm),
+                 planted=None if noise else {ids[k]: cs[k] for k in range(len(ranges))})
+    return hm, truth
+
+
+def normal_system(hm, ground=None):
+    """The stationarity conditions of the spread, assembled level by level (nothing shared with spowtd): for every
+    level crossed by n >= 2 intervals the projector I - J/n on those intervals; (sum of projectors) x = - sum of
+    projectors applied to the crossing values.  The interval `ground` (default: the SMALLEST id - spowtd fixes the
+    largest) is removed.  Returns (ids without the ground, matrix, right-hand side, ground)."""
+    import numpy as np
+    ids = sorted({s for seq in hm.values() if len(seq) >= 2 for s, _ in seq})
+    ground = ids[0] if ground is None else ground
+    pos = {s: i for i, s in enumerate(ids)}
+    n = len(ids)
+    M = np.zeros((n, n))
+    r = np.zeros(n)
+    for seq in hm.values():
+        if len(seq) < 2:
+            continue
+        ix = np.array([pos[s] for s, _ in seq])
+        t = np.array([v for _, v in seq])
+        M[np.ix_(ix, ix)] -= 1.0 / len(seq)
+        M[ix, ix] += 1.0
+        r[ix] -= t - t.mean()
+    keep = [i for i in range(n) if ids[i] != ground]
+    return [ids[i] for i in keep], M[np.ix_(keep, keep)], r[keep], ground
+
+
+def independent_offsets(hm):
+    """Minimiser of the spread from normal_system (numpy solve on the small square system), as {id: offset}."""
+    import numpy as np
+    ids, M, r, ground = normal_system(hm)
+    x = np.linalg.solve(M, r) if ids else []
+    out = {s: float(v) for s, v in zip(ids, x)}
+    out[ground] = 0.0
+    return out
+
+
+def singular_ratio(hm):
+    """sigma_min / sigma_max of the least-squares design matrix of the mapping (square roots of the extreme
+    eigenvalues of normal_system's matrix with the largest id removed, which is spowtd's A^T A)."""
+    import numpy as np
+    ids = sorted({s for seq in hm.values() if len(seq) >= 2 for s, _ in seq})
+    _, M, _, _ = normal_system(hm, ground=ids[-1])
+    w = np.linalg.eigvalsh(M)
+    return float(np.sqrt(max(w[0], 0.0) / w[-1]))
